@@ -210,7 +210,7 @@ def run(tier: str, seed: int) -> Report:
         "RNG() without seeds (the security seed) is made reproducible by a counter-seeded subclass installed as "
         "gallia.services.uds.server.RNG in the harness process; seeded uses are untouched",
         "'parsable' is the verdict of gallia's own request codec (UDSRequest.parse_dynamic is not a RawRequest); "
-        "that codec is the subject of C01 (e.g. 85 81 is unparsable there, S1)",
+        "that codec is the subject of C01 (a request the codec cannot round-trip counts as unparsable here)",
         "the reply before suppression is read by wrapping the bound method respond_without_state_change of the "
         "server instance; a black-box family without that hook is validated as well",
         "security level numbering is gallia's (level = SendKey sub-function - 1); default session = 1",
